@@ -2785,4 +2785,126 @@ theorem nonBlank_badSpaces {text : Str} {l : Str} (hl : l ∈ splitOnChar '\n' t
 theorem parseFull_rejected {full : List Str} (h : linesRejected full = true) : parseFull full = .error .gpe := by
   unfold parseFull; simp [h]
 
+/-! ## optionality: what an accepted graph records -/
+
+theorem opt_decl_origin {e m : List Str} {p : SPair} {ld : List Decl} (h : pairDecls e m p = some ld)
+    {n o : Str} {b : Bool} (hd : Decl.opt n o b ∈ ld) :
+    ∃ r ∈ p.rights, n = r.name ∧ b = r.opt ∧ r.suicide = false ∧ ∃ f, o = rightOutput e m f r := by
+  have key : ∀ (ex : Str) (ts : List Str) (r : Node), Decl.opt n o b ∈ rightDecls e m ex ts r →
+      n = r.name ∧ b = r.opt ∧ r.suicide = false ∧ ∃ f, o = rightOutput e m f r := by
+    intro ex ts r hdr
+    unfold rightDecls rightTrigDecl rightOptDecl at hdr
+    simp only [List.mem_append] at hdr
+    rcases hdr with hdr | hdr
+    · split_ifs at hdr
+      · simp at hdr
+      · cases hdr
+    · split_ifs at hdr with hc
+      · cases hdr
+      · simp only [List.mem_singleton, Decl.opt.injEq] at hdr
+        simp only [Bool.or_eq_true, not_or, Bool.not_eq_true] at hc
+        exact ⟨hdr.1, hdr.2.2, hc.2, ex.isEmpty, hdr.2.1⟩
+  unfold pairDecls at h
+  split_ifs at h with hc
+  cases hl : p.left with
+  | none =>
+    rw [hl] at h
+    simp only [Option.some.injEq] at h
+    subst h
+    obtain ⟨r, hr, hdr⟩ := List.mem_flatMap.1 hd
+    exact ⟨r, hr, key _ _ r hdr⟩
+  | some l =>
+    rw [hl] at h
+    simp only at h
+    split_ifs at h with hc2
+    simp only [Option.some.injEq] at h
+    subst h
+    obtain ⟨u, -, hdu⟩ := List.mem_flatMap.1 hd
+    obtain ⟨r, hr, hdr⟩ := List.mem_flatMap.1 hdu
+    exact ⟨r, hr, key _ _ r hdr⟩
+
+theorem opt_decl_of_pair {e m : List Str} {p : SPair} {ld : List Decl} (h : pairDecls e m p = some ld)
+    {r : Node} (hr : r ∈ p.rights) (hs : r.suicide = false) (hq : r.qual ≠ []) :
+    Decl.opt r.name (stdQual r.qual) r.opt ∈ ld ∨ stdQual r.qual = [] := by
+  by_cases hz : stdQual r.qual = []
+  · exact Or.inr hz
+  left
+  have key : ∀ (ex : Str) (ts : List Str), Decl.opt r.name (stdQual r.qual) r.opt ∈ rightDecls e m ex ts r := by
+    intro ex ts
+    unfold rightDecls rightOptDecl rightOutput
+    apply List.mem_append_right
+    have hqe : r.qual.isEmpty = false := by cases hq' : r.qual with | nil => exact absurd hq' hq | cons _ _ => rfl
+    have hze : (stdQual r.qual).isEmpty = false := by
+      cases hq' : stdQual r.qual with | nil => exact absurd hq' hz | cons _ _ => rfl
+    simp [hqe, hze, hs]
+  unfold pairDecls at h
+  split_ifs at h with hc
+  cases hl : p.left with
+  | none =>
+    rw [hl] at h
+    simp only [Option.some.injEq] at h
+    subst h
+    exact List.mem_flatMap.2 ⟨r, hr, key _ _⟩
+  | some l =>
+    rw [hl] at h
+    simp only at h
+    split_ifs at h with hc2
+    simp only [Option.some.injEq] at h
+    subst h
+    obtain ⟨u, us, hus⟩ := List.exists_cons_of_ne_nil (leftUnits_ne_nil l)
+    exact List.mem_flatMap.2 ⟨u, by rw [hus]; exact List.mem_cons_self, List.mem_flatMap.2 ⟨r, hr, key _ _⟩⟩
+
+/-- **optionality is what is written (1)**: in an accepted graph a right-hand or lone node `r` with an
+explicit qualifier (other than `finish`) and no suicide mark records that output as optional iff `r`
+carries `?` -/
+theorem struct_opts_recorded {m : Bool} {L : List SLine} {st : St} (h : parseStructWith m L = some st)
+    {p : SPair} (hp : p ∈ pairsOf L) {r : Node} (hr : r ∈ p.rights) (hs : r.suicide = false)
+    (hq : r.qual ≠ []) (hz : stdQual r.qual ≠ []) (hf : stdQual r.qual ≠ outFinished) :
+    st.opts.lookup (r.name, stdQual r.qual) = some r.opt := by
+  obtain ⟨-, ds, hm, hf', -⟩ := parse_some h
+  obtain ⟨hgood, hro, -⟩ := (fold_good ds.flatten).1 st hf'
+  obtain ⟨ld, hld⟩ := Option.isSome_iff_exists.1 ((mapM_some_iff _ _).1 ⟨ds, hm⟩ p hp)
+  rcases opt_decl_of_pair hld hr hs hq with hd | hd
+  · have hdm : Decl.opt r.name (stdQual r.qual) r.opt ∈ ds.flatten := (mem_decls hm _).2 ⟨p, hp, ld, hld, hd⟩
+    have hsome := hgood.1 _ hdm
+    rw [hro]
+    refine ⟨_, hdm, ?_⟩
+    simp only [Decl.eopts] at hsome ⊢
+    split_ifs at hsome ⊢ with h1
+    · simp at hsome
+    · exact ⟨_, rfl, List.mem_singleton.2 rfl⟩
+  · exact absurd hd hz
+
+/-- **optionality is what is written (2)**: every recorded optionality entry of an accepted graph is
+declared by a right-hand or lone occurrence of that task without suicide mark: its (standardised)
+qualifier or the inferred `:succeeded`, or `succeeded` / `failed` through `:finish` -/
+theorem struct_opts_origin {m : Bool} {L : List SLine} {st : St} (h : parseStructWith m L = some st)
+    {n o : Str} {b : Bool} (hlk : st.opts.lookup (n, o) = some b) :
+    ∃ p ∈ pairsOf L, ∃ r ∈ p.rights, n = r.name ∧ r.suicide = false ∧
+      ∃ f, (o = rightOutput (eocOf L) (midOf m L) f r ∧ b = r.opt) ∨
+           (rightOutput (eocOf L) (midOf m L) f r = outFinished ∧ (o = outSucceeded ∨ o = outFailed) ∧ b = true) := by
+  obtain ⟨-, ds, hm, hf', -⟩ := parse_some h
+  obtain ⟨-, hro, -⟩ := (fold_good ds.flatten).1 st hf'
+  obtain ⟨d, hd, es, hes, hx⟩ := (hro n o b).1 hlk
+  cases d with
+  | trig a b' c d' => simp only [Decl.eopts, Option.some.injEq] at hes; subst hes; cases hx
+  | opt n' o' b' =>
+    obtain ⟨p, hp, ld, hld, hdl⟩ := (mem_decls hm _).1 hd
+    obtain ⟨r, hr, hn, hb, hs, f, ho⟩ := opt_decl_origin hld hdl
+    refine ⟨p, hp, r, hr, ?_⟩
+    simp only [Decl.eopts] at hes
+    split_ifs at hes with h1 h2 h3
+    · -- finished
+      simp only [Option.some.injEq] at hes
+      subst hes
+      simp only [List.mem_cons, Prod.mk.injEq, List.not_mem_nil, or_false] at hx
+      rcases hx with ⟨rfl, rfl, rfl⟩ | ⟨rfl, rfl, rfl⟩
+      · exact ⟨hn, hs, f, Or.inr ⟨by rw [← ho, h2], Or.inl rfl, rfl⟩⟩
+      · exact ⟨hn, hs, f, Or.inr ⟨by rw [← ho, h2], Or.inr rfl, rfl⟩⟩
+    · simp only [Option.some.injEq] at hes
+      subst hes
+      simp only [List.mem_singleton, Prod.mk.injEq] at hx
+      obtain ⟨rfl, rfl, rfl⟩ := hx
+      exact ⟨hn, hs, f, Or.inl ⟨ho, hb⟩⟩
+
 end CylcModel.Graph
